@@ -30,6 +30,7 @@ BEGIN_C_DECLS
  * in all other contexts.
  */
 #  define PARSEC_ATOMIC_ACCESS_TO_INTERNALS_ALLOWED 1
+#  include "parsec/sys/verif_hooks.h"
 
 #  if defined(PARSEC_ATOMIC_USE_C11_ATOMICS)
 #    include "atomic-c11.h"
